@@ -6,7 +6,10 @@
 //
 // How the contracts see "which child ran, when, and what happened around it" (as in xor.rs, extended):
 //  * `ExecutionCtx.log` is a ghost log with one entry `Ran{id, pre, res, post}` per CHILD execution: the child's id, a snapshot
-//    of the context (completeness flag + the three scope logs) on entry, the result, the snapshot on exit.
+//    of the context (completeness flag + the three scope logs + `next_peer_pks`) on entry, the result, the snapshot on exit.
+//  * `next_peer_pks` (C19: where the particle goes next) is FRAMED by every executor here: the first child starts with the list the
+//    instruction was entered with, each further child with the list its predecessor left, and the instruction ends with the list
+//    its last child left (unchanged if no child ran) -- `peers_chain` below; a child itself may do anything to the list.
 //  * `Streams.scopes` / `StreamMaps.scopes` / `Scalars.scopes` are ghost logs of the scope calls made on that object
 //    (`meet_scope_start/_end`, `meet_new_start_*/meet_new_end_*`). `depth(log, kind, name)` = #Start - #End.
 //  * `TraceHandler.log` is the ghost log of the par calls made on the trace handler, interleaved with `Child{id}` entries the
@@ -192,6 +195,7 @@ pub struct Snap {
     pub ss: Scopes,            // Streams.scopes
     pub ms: Scopes,            // StreamMaps.scopes
     pub cs: Scopes,            // Scalars.scopes
+    pub peers: vstd::seq::Seq<String>, // ExecutionCtx::next_peer_pks (C19: where the particle goes next)
 }
 pub open spec fn snap_wf(s: Snap) -> bool { scopes_wf(s.ss) && scopes_wf(s.ms) && scopes_wf(s.cs) }
 // THE inductive clause: whatever an instruction does, every scope it opened is closed again when it returns
@@ -206,6 +210,16 @@ pub struct Ran {
     pub post: Snap,                     // the context it left behind
 }
 pub type Log = vstd::seq::Seq<Ran>;
+// C19 frame: an executor never changes `next_peer_pks` itself. Of the children it ran (log1 beyond log0): the first starts with the
+// list the instruction was entered with (`peers0`), each further one with the list its predecessor left, and the instruction ends
+// with the list its last child left (`peers1`) -- with `peers0` if no child ran
+pub open spec fn peers_chain(log0: Log, log1: Log, peers0: vstd::seq::Seq<String>, peers1: vstd::seq::Seq<String>) -> bool {
+    let n = log0.len() as int;
+    &&& log1.len() >= n
+    &&& log1.len() > n ==> log1[n].pre.peers == peers0
+    &&& forall|i: int| n < i < log1.len() ==> (#[trigger] log1[i]).pre.peers == log1[i - 1].post.peers
+    &&& peers1 == (if log1.len() > n { log1[log1.len() - 1].post.peers } else { peers0 })
+}
 
 // ---------------------------------------------------------------- shim: trace handler (trusted): ghost log of par calls and child runs
 //@ lift crates/air-lib/trace-handler/src/state_automata/par_fsm.rs :: enum SubgraphType
@@ -362,19 +376,21 @@ pub struct ExecutionCtx<'i> {
     pub last_error_descriptor: LastErrorDescriptor,
     pub error_descriptor: ErrorDescriptor,
     pub subgraph_completeness: bool,
+    pub next_peer_pks: Vec<String>,
     pub tracker: InstructionTracker,
     pub log: Ghost<Log>,
 }
 impl<'i> ExecutionCtx<'i> {
     pub open spec fn snap(&self) -> Snap {
-        Snap { complete: self.subgraph_completeness, ss: self.streams.scopes@, ms: self.stream_maps.scopes@, cs: self.scalars.scopes@ }
+        Snap { complete: self.subgraph_completeness, ss: self.streams.scopes@, ms: self.stream_maps.scopes@, cs: self.scalars.scopes@,
+               peers: self.next_peer_pks@ }
     }
     pub open spec fn wf(&self) -> bool { snap_wf(self.snap()) }
     // nothing but the completeness flag differs
     pub open spec fn same_but_complete(&self, o: &Self) -> bool {
         self.scalars == o.scalars && self.streams == o.streams && self.stream_maps == o.stream_maps && self.run_parameters == o.run_parameters
             && self.last_error_descriptor == o.last_error_descriptor && self.error_descriptor == o.error_descriptor
-            && self.tracker == o.tracker && self.log@ == o.log@
+            && self.tracker == o.tracker && self.log@ == o.log@ && self.next_peer_pks == o.next_peer_pks
     }
 }
 impl ExecutionCtx<'_> {
@@ -398,8 +414,10 @@ impl ExecutionCtx<'_> {
 
 // ---------------------------------------------------------------- shim: the AST. Real: the enum Instruction and the structs executed here;
 // opaque: the other instruction kinds and the argument types
+// (an opaque payload `x`: without it the type would have ONE value, every two `ImmutableValue`s would be equal and the
+//  "values differ" path of mismatch -- the one that runs the body -- would be verified vacuously)
 macro_rules! opaque_kind {
-    ($name:ident) => { verus! { pub struct $name<'i> { pub ph: PhantomData<&'i u8> } } };
+    ($name:ident) => { verus! { pub struct $name<'i> { pub x: u64, pub ph: PhantomData<&'i u8> } } };
 }
 opaque_kind!(Call); opaque_kind!(Ap); opaque_kind!(ApMap); opaque_kind!(Canon); opaque_kind!(CanonMap); opaque_kind!(CanonStreamMapScalar);
 opaque_kind!(Seq); opaque_kind!(Xor); opaque_kind!(FoldScalar); opaque_kind!(FoldStream); opaque_kind!(FoldStreamMap); opaque_kind!(Next);
@@ -492,11 +510,14 @@ impl<'i> ExecutableInstruction<'i> for Instruction<'i> {
 impl<'i> Never {
 //@ lift air/src/execution_step/instructions/never.rs :: impl<'i> super::ExecutableInstruction<'i> for Never :: fn execute
 //@ name Never::execute
-//@ props C01
+//@ props C01 C19
 //@ ret r
 //@ spec
         ensures r is Ok, !final(exec_ctx).subgraph_completeness, final(exec_ctx).same_but_complete(old(exec_ctx)),
-            *final(trace_ctx) == *old(trace_ctx)
+            *final(trace_ctx) == *old(trace_ctx),
+            // C19: no child, the list of next peers is left alone
+            peers_chain(old(exec_ctx).log@, final(exec_ctx).log@, old(exec_ctx).next_peer_pks@, final(exec_ctx).next_peer_pks@),
+            final(exec_ctx).next_peer_pks == old(exec_ctx).next_peer_pks,
 //@ end
 }
 impl<'i> ExecutableInstruction<'i> for Never {
@@ -506,10 +527,13 @@ impl<'i> ExecutableInstruction<'i> for Never {
 impl<'i> Null {
 //@ lift air/src/execution_step/instructions/null.rs :: impl<'i> super::ExecutableInstruction<'i> for Null :: fn execute
 //@ name Null::execute
-//@ props C01
+//@ props C01 C19
 //@ ret r
 //@ spec
-        ensures r is Ok, *final(exec_ctx) == *old(exec_ctx), *final(trace_ctx) == *old(trace_ctx)
+        ensures r is Ok, *final(exec_ctx) == *old(exec_ctx), *final(trace_ctx) == *old(trace_ctx),
+            // C19: no child, the list of next peers is left alone
+            peers_chain(old(exec_ctx).log@, final(exec_ctx).log@, old(exec_ctx).next_peer_pks@, final(exec_ctx).next_peer_pks@),
+            final(exec_ctx).next_peer_pks == old(exec_ctx).next_peer_pks,
 //@ end
 }
 impl<'i> ExecutableInstruction<'i> for Null {
@@ -575,6 +599,8 @@ pub open spec fn subgraph_spec(sg: Instruction, ty: SubgraphType, c0: ExecutionC
     &&& ran.id == sg.id()
     &&& ran.pre == entered_with(c0.snap(), sg)
     &&& same_scopes(ran.post, c1.snap())
+    // C19: the branch starts with the list of next peers as it was and what it leaves is what execute_subgraph leaves, on every path
+    &&& ran.pre.peers == c0.next_peer_pks@ && c1.next_peer_pks@ == ran.post.peers
     &&& match ran.res {
             Err(e) if !catchable(e) => {
                 &&& t1 =~= t0.push(TEv::Child { id: sg.id() })
@@ -611,7 +637,7 @@ pub open spec fn subgraph_spec(sg: Instruction, ty: SubgraphType, c0: ExecutionC
 //@ end
 
 //@ lift air/src/execution_step/instructions/par.rs :: fn prepare_par_result
-//@ props C01 C05 C18
+//@ props C01 C05 C18 C19
 //@ ret r
 //@ spec
     ensures
@@ -623,6 +649,7 @@ pub open spec fn subgraph_spec(sg: Instruction, ty: SubgraphType, c0: ExecutionC
         r is Ok ==> final(exec_ctx).last_error_descriptor.error_can_be_set && final(exec_ctx).last_error_descriptor.error == old(exec_ctx).last_error_descriptor.error,
         r is Err ==> final(exec_ctx).last_error_descriptor == old(exec_ctx).last_error_descriptor,
         final(exec_ctx).snap() == old(exec_ctx).snap(), final(exec_ctx).log@ == old(exec_ctx).log@,
+        final(exec_ctx).next_peer_pks == old(exec_ctx).next_peer_pks,
 //@ end
 
 // C05 / C19: what a par does, as a relation between the two ghost logs before and after, the context and the result.
@@ -634,24 +661,32 @@ pub open spec fn par_spec(par: Par, c0: ExecutionCtx, c1: ExecutionCtx, t0: TLog
     let left = c1.log@[n];
     let right = c1.log@[n + 1];
     &&& t1.len() > tn && t1.subrange(0, tn) =~= t0 && t1[tn] is ParStart
+    // C19: a par never touches the list of next peers itself -- the peers the left branch forwarded to are kept whatever the right
+    // one does or returns: left starts with the list as it was, right with what left left behind, and the par ends with what the
+    // last branch that ran left behind, on every exit (spelled out per exit below)
+    &&& peers_chain(c0.log@, c1.log@, c0.next_peer_pks@, c1.next_peer_pks@)
     &&& if !t1[tn]->ParStart_ok {
             // the merger / FSM rejected the par state found in data: nothing runs
             c1.log@ == c0.log@ && t1.len() == tn + 1 && (r matches Err(e) && is_trace_error(e))
+                && c1.next_peer_pks@ == c0.next_peer_pks@
         } else {
             // the left branch always runs, first, entered with completeness = "is not a next"
             &&& c1.log@.len() > n && c1.log@.subrange(0, n) =~= c0.log@
-            &&& left.id == par.0.id() && left.pre == entered_with(c0.snap(), par.0)
+            &&& left.id == par.0.id() && left.pre == entered_with(c0.snap(), par.0) && left.pre.peers == c0.next_peer_pks@
             &&& t1.len() > tn + 1 && t1[tn + 1] == (TEv::Child { id: par.0.id() })
             &&& if (left.res matches Err(e) && !catchable(e)) {
                     c1.log@.len() == n + 1 && t1.len() == tn + 2 && r == left.res && !c1.subgraph_completeness
+                        && c1.next_peer_pks@ == left.post.peers
                 } else {
                     &&& t1.len() > tn + 2 && t1[tn + 2] is ParSubgraphEnd && t1[tn + 2]->ParSubgraphEnd_ty is Left
                     &&& if !t1[tn + 2]->ParSubgraphEnd_ok {
                             c1.log@.len() == n + 1 && t1.len() == tn + 3 && (r matches Err(e) && is_trace_error(e))
+                                && c1.next_peer_pks@ == left.post.peers
                         } else {
                             // Ok or catchable failure of the left branch: the right branch runs, once, after it
                             &&& c1.log@.len() == n + 2
                             &&& right.id == par.1.id() && right.pre.complete == !(par.1 is Next) && same_scopes(right.pre, left.post)
+                            &&& right.pre.peers == left.post.peers && c1.next_peer_pks@ == right.post.peers
                             &&& t1.len() > tn + 3 && t1[tn + 3] == (TEv::Child { id: par.1.id() })
                             &&& if (right.res matches Err(e) && !catchable(e)) {
                                     t1.len() == tn + 4 && r == right.res && !c1.subgraph_completeness
@@ -778,16 +813,17 @@ pub proof fn lemma_closed(s0: Snap, post: Snap, a: NewArgument, ok: bool)
 }
 
 //@ lift air/src/execution_step/instructions/new.rs :: fn prolog
-//@ props C01
+//@ props C01 C19
 //@ spec
     ensures
         // exactly one scope start, for the variable `new` names, on the object that owns it
         final(exec_ctx).snap() == opened(old(exec_ctx).snap(), new.argument),
         final(exec_ctx).log@ == old(exec_ctx).log@,
+        final(exec_ctx).next_peer_pks == old(exec_ctx).next_peer_pks,
 //@ end
 
 //@ lift air/src/execution_step/instructions/new.rs :: fn epilog
-//@ props C01
+//@ props C01 C19
 //@ ret r
 //@ spec
     requires
@@ -798,6 +834,7 @@ pub proof fn lemma_closed(s0: Snap, post: Snap, a: NewArgument, ok: bool)
         // exactly one scope end, whatever it returns
         final(exec_ctx).snap() == closed(old(exec_ctx).snap(), new.argument, r is Ok),
         final(exec_ctx).log@ == old(exec_ctx).log@, final(trace_ctx).log@ == old(trace_ctx).log@,
+        final(exec_ctx).next_peer_pks == old(exec_ctx).next_peer_pks,
 //@ end
 
 // `new`: scope start, body, scope end -- the end is called exactly once per start, on EVERY path (also when the body fails,
@@ -814,12 +851,16 @@ pub open spec fn new_spec(new: New, c0: ExecutionCtx, c1: ExecutionCtx, t0: TLog
     &&& c1.snap() == closed(ran.post, new.argument, end_ok(c1.snap(), new.argument))
     &&& (r is Ok <==> ran.res is Ok && end_ok(c1.snap(), new.argument))
     &&& ran.res is Err ==> r == ran.res
+    // C19: neither the scope start nor the scope end touches the list of next peers: the body starts with the list as it was and
+    // the `new` ends with what the body left behind, whatever the body and the scope end returned
+    &&& ran.pre.peers == c0.next_peer_pks@ && c1.next_peer_pks@ == ran.post.peers
+    &&& peers_chain(c0.log@, c1.log@, c0.next_peer_pks@, c1.next_peer_pks@)
 }
 
 impl<'i> New<'i> {
 //@ lift air/src/execution_step/instructions/new.rs :: impl<'i> super::ExecutableInstruction<'i> for New<'i> :: fn execute
 //@ name New::execute
-//@ props C01
+//@ props C01 C19
 //@ ret r
 //@ after "prolog(self, exec_ctx);"
         proof { lemma_opened(old(exec_ctx).snap(), self.argument); }
@@ -868,7 +909,9 @@ pub open spec fn cmp_res(l: ImmutableValue, r: ImmutableValue, c: ExecutionCtx) 
 // match / mismatch: the body runs iff the comparison says what the instruction wants; otherwise its own catchable error
 pub open spec fn match_spec(want_equal: bool, left: ImmutableValue, right: ImmutableValue, body: Instruction,
                             c0: ExecutionCtx, c1: ExecutionCtx, t0: TLog, t1: TLog, r: ExecutionResult<()>) -> bool {
-    match cmp_res(left, right, c0) {
+    // C19: the instruction itself never changes the list of next peers (no body run: unchanged)
+    &&& peers_chain(c0.log@, c1.log@, c0.next_peer_pks@, c1.next_peer_pks@)
+    &&& match cmp_res(left, right, c0) {
         // an operand is not there yet: wait (Ok, subgraph incomplete); any other resolution error is handed on; the body does not run
         Err(e) => t1 == t0 && c1.log@ == c0.log@
             && (if joinable_err(e) { r is Ok && !c1.subgraph_completeness && c1.same_but_complete(&c0) }
@@ -878,6 +921,8 @@ pub open spec fn match_spec(want_equal: bool, left: ImmutableValue, right: Immut
                 let ran = c1.log@[c0.log@.len() as int];
                 &&& c1.log@ =~= c0.log@.push(ran) && ran.id == body.id() && ran.pre == c0.snap() && ran.post == c1.snap() && r == ran.res
                 &&& t1 =~= t0.push(TEv::Child { id: body.id() })
+                // C19: the body starts with the list of next peers as it was, the instruction ends with what the body left behind
+                &&& ran.pre.peers == c0.next_peer_pks@ && c1.next_peer_pks@ == ran.post.peers
             } else {
                 // the body does NOT run; the error is catchable
                 &&& c1 == c0 && t1 == t0
@@ -890,7 +935,7 @@ pub open spec fn match_spec(want_equal: bool, left: ImmutableValue, right: Immut
 impl<'i> Match<'i> {
 //@ lift air/src/execution_step/instructions/match_.rs :: impl<'i> super::ExecutableInstruction<'i> for Match<'i> :: fn execute
 //@ name Match::execute
-//@ props C01 C18
+//@ props C01 C18 C19
 //@ ret r
 //@ spec
         requires old(exec_ctx).wf()
@@ -906,7 +951,7 @@ impl<'i> ExecutableInstruction<'i> for Match<'i> {
 impl<'i> MisMatch<'i> {
 //@ lift air/src/execution_step/instructions/mismatch.rs :: impl<'i> super::ExecutableInstruction<'i> for MisMatch<'i> :: fn execute
 //@ name MisMatch::execute
-//@ props C01 C18
+//@ props C01 C18 C19
 //@ ret r
 //@ spec
         requires old(exec_ctx).wf()
@@ -971,7 +1016,7 @@ pub open spec fn invalid_error_object(e: ErrorObjectError) -> ExecutionError { E
 // everything `fail` never touches
 pub open spec fn fail_frame(c0: ExecutionCtx, c1: ExecutionCtx) -> bool {
     c1.scalars == c0.scalars && c1.streams == c0.streams && c1.stream_maps == c0.stream_maps && c1.run_parameters == c0.run_parameters
-        && c1.tracker == c0.tracker && c1.log@ == c0.log@
+        && c1.tracker == c0.tracker && c1.log@ == c0.log@ && c1.next_peer_pks == c0.next_peer_pks
 }
 // what raising an error object does to the context: %last_error% becomes exactly that object (with its tetraplet and
 // provenance), further writes to it are disabled while the error bubbles, the subgraph is incomplete
@@ -1089,7 +1134,7 @@ pub open spec fn fail_spec(fail: Fail, c0: ExecutionCtx, c1: ExecutionCtx, r: Ex
 impl<'i> Fail<'i> {
 //@ lift air/src/execution_step/instructions/fail.rs :: impl<'i> super::ExecutableInstruction<'i> for Fail<'i> :: fn execute
 //@ name Fail::execute
-//@ props C01 C18
+//@ props C01 C18 C19
 //@ ret r
 //@ rewrite 1 "&Fail::Literal {" => "Fail::Literal {"
 //@ rewrite 1 "fail_with_literals(ret_code, error_message, self, exec_ctx)" => "fail_with_literals(*ret_code, *error_message, self, exec_ctx)"
@@ -1098,6 +1143,9 @@ impl<'i> Fail<'i> {
         ensures fail_spec(*self, *old(exec_ctx), *final(exec_ctx), r), *final(trace_ctx) == *old(trace_ctx),
             // C18: `fail` never succeeds and its error is always catchable, unless resolving its argument failed uncatchably
             r is Err,
+            // C19: no child, the list of next peers is left alone
+            peers_chain(old(exec_ctx).log@, final(exec_ctx).log@, old(exec_ctx).next_peer_pks@, final(exec_ctx).next_peer_pks@),
+            final(exec_ctx).next_peer_pks == old(exec_ctx).next_peer_pks,
             (self is Literal || self is LastError || self is Error) ==> (r matches Err(e) && catchable(e)),
             final(exec_ctx).wf(), balanced(old(exec_ctx).snap(), final(exec_ctx).snap()),
 //@ end
